@@ -147,41 +147,33 @@ theorem flag_mono (isFn : Nat → Bool) :
     (motive_7 := fun _ _ _ _ => True)
     (motive_8 := fun c es => ∀ gs r, compileAll isFn c es gs = .ok r → r.1.2 = true → c.tail = true)
   all_goals (intros; try trivial)
-  all_goals (try (rename_i h hr; simp only [compile, compileNewScope, compileBinds, compileBegin, compileAll, bind_ok, pure_ok, get_ok] at h; grind))
-  case case8 =>
-    rename_i hc gs r h hr
-    simp only [compile, hc, Bool.false_eq_true, ↓reduceIte, pure_ok] at h
-    subst h; exact hr
-  case case20 =>
-    rename_i h hr
-    simp only [compile, bind_ok, get_ok] at h
-    obtain ⟨a, gs1, heq, h⟩ := h
-    cases heq
-    generalize findLoop _ _ = fl at h
-    cases fl with
-    | none => simp only [throw_ok] at h
-    | some id => simp only [pure_ok] at h; subst h; exact hr
-  case case21 =>
-    rename_i h hr
-    simp only [compile, bind_ok, get_ok] at h
-    obtain ⟨a, gs1, heq, h⟩ := h
-    cases heq
-    generalize findLoop _ _ = fl at h
-    cases fl with
-    | none => simp only [throw_ok] at h
-    | some id => simp only [pure_ok] at h; subst h; exact hr
-  case case19 =>
-    rename_i h hr
-    simp only [compile, bind_ok, get_ok, set_ok] at h
-    obtain ⟨a, g1, h1, a1, g2, h2, a2, g3, h3, h⟩ := h
-    generalize StateT.run _ _ = res at h
-    rcases res with e | ⟨⟨b, i, t, s⟩, gs'⟩
-    · simp only [bind_ok, modify_ok, throw_ok] at h
-      obtain ⟨_, _, _, hf⟩ := h
-      exact hf.elim
-    · simp only [bind_ok, set_ok, pure_ok] at h
-      obtain ⟨_, _, _, rfl⟩ := h
-      exact hr
+  -- every case ends the same way: unfold the equation of the form, take the result apart, read
+  -- the flag off. The alternatives differ only in how the equation is taken apart (the order of
+  -- the cases of `mutual_induct` is not relied upon).
+  all_goals first
+    | (rename_i h hr; simp only [compile, compileNewScope, compileBinds, compileBegin, compileAll, bind_ok, pure_ok, get_ok] at h; grind)
+    | (rename_i hc gs r h hr
+       simp only [compile, hc, Bool.false_eq_true, ↓reduceIte, pure_ok] at h
+       subst h; exact hr)
+    | (rename_i h hr
+       simp only [compile, bind_ok, get_ok] at h
+       obtain ⟨a, gs1, heq, h⟩ := h
+       cases heq
+       generalize findLoop _ _ = fl at h
+       cases fl with
+       | none => simp only [throw_ok] at h
+       | some id => simp only [pure_ok] at h; subst h; exact hr)
+    | (rename_i h hr
+       simp only [compile, bind_ok, get_ok, set_ok] at h
+       obtain ⟨a, g1, h1, a1, g2, h2, a2, g3, h3, h⟩ := h
+       generalize StateT.run _ _ = res at h
+       rcases res with e | ⟨⟨b, i, t, s⟩, gs'⟩
+       · simp only [bind_ok, modify_ok, throw_ok] at h
+         obtain ⟨_, _, _, hf⟩ := h
+         exact hf.elim
+       · simp only [bind_ok, set_ok, pure_ok] at h
+         obtain ⟨_, _, _, rfl⟩ := h
+         exact hr)
 
 /-! ## `GenerateBegin` -/
 
@@ -317,7 +309,7 @@ theorem sc_inner {isFn : Nat → Bool} {c : Ctx} {e : Expr} :
 
 theorem arms_mem {isFn : Nat → Bool} {c : Ctx} {p b : Expr} :
     ∀ {arms : List (Expr × Expr)} {gs : GS} {r}, compileArms isFn c arms gs = .ok r → (p, b) ∈ arms →
-      ∃ gp rp gb rb, compile isFn { c with tail := false, scopes := 0 } p gp = .ok rp ∧
+      ∃ gp rp gb rb, compile isFn (off c) p gp = .ok rp ∧
         compile isFn c b gb = .ok rb ∧ (rp.1.1, rb.1.1) ∈ r.1 := by
   intro arms
   induction arms with
@@ -397,9 +389,12 @@ theorem tailStep_emits {isFn : Nat → Bool} {e m : Expr} {sc : Bool} (st : Tail
     simp only [compile, bind_ok, pure_ok] at h
     obtain ⟨⟨dc, x⟩, gs1, h1, as, gs2, _, rfl⟩ := h
     exact ⟨gs, ((dc, x), gs1), h1, seg_asmCond_dflt as dc⟩
-  | beginLast hl =>
-    simp only [compile] at h
-    exact begin_last h hl
+  | @beginLast es _ hl =>
+    cases es with
+    | nil => cases hl
+    | cons x xs =>
+      simp only [compile] at h
+      exact begin_last h hl
   | letLast hl =>
     simp only [compile, bind_ok, pure_ok] at h
     obtain ⟨⟨rhs, _⟩, gs1, _, ⟨b, t'⟩, gs2, h2, rfl⟩ := h
@@ -432,10 +427,13 @@ theorem nonTailStep_emits {isFn : Nat → Bool} {e m : Expr} (st : NonTailStep e
     simp only [compile, bind_ok, pure_ok] at h
     obtain ⟨⟨dc, _⟩, gs1, _, as, gs2, h2, rfl⟩ := h
     obtain ⟨gp, rp, gb, rb, hp, _, hmem⟩ := arms_mem h2 hm
-    exact ⟨0, gp, rp, hp, (seg_asmCond_arm dc hmem).1⟩
-  | beginInner hm =>
-    simp only [compile] at h
-    exact ⟨k, begin_inner h hm⟩
+    exact ⟨k, gp, rp, hp, (seg_asmCond_arm dc hmem).1⟩
+  | @beginInner es _ hm =>
+    cases es with
+    | nil => cases hm
+    | cons x xs =>
+      simp only [compile] at h
+      exact ⟨k, begin_inner h hm⟩
   | letInit hm =>
     simp only [compile, bind_ok, pure_ok] at h
     obtain ⟨⟨rhs, _⟩, gs1, h1, ⟨b, t'⟩, gs2, _, rfl⟩ := h
@@ -474,10 +472,6 @@ theorem nonTailStep_emits {isFn : Nat → Bool} {e m : Expr} (st : NonTailStep e
     simp only [compile, bind_ok, pure_ok] at h
     obtain ⟨⟨code, t'⟩, gs1, h1, rfl⟩ := h
     exact ⟨k, gs, ((code, t'), gs1), h1, Seg.right _ (Seg.refl _)⟩
-  | assignLhs =>
-    simp only [compile, bind_ok, pure_ok] at h
-    obtain ⟨⟨a, ta⟩, gs1, h1, ⟨b, tb⟩, gs2, _, rfl⟩ := h
-    exact ⟨k, gs, ((a, ta), gs1), h1, Seg.right _ (Seg.right _ (Seg.refl _))⟩
   | assignRhs =>
     simp only [compile, bind_ok, pure_ok] at h
     obtain ⟨⟨a, ta⟩, gs1, _, ⟨b, tb⟩, gs2, h2, rfl⟩ := h
@@ -535,12 +529,50 @@ theorem nonTailAt_emits {isFn : Nat → Bool} {e s : Expr} (p : NonTailAt e s) :
 
 /-! ## What a self call compiles to under either flag -/
 
+/-- the arity test of `GenerateCallBySymbol` (fix c9a2ccf): the known function, if any, takes
+`n` arguments. -/
+def ArityOk (fo : Option FnObj) (n : Nat) : Bool :=
+  match fo with
+  | some fo => if fo.varargs then decide (fo.nargs ≤ n) else n == fo.nargs
+  | none => true
+
 theorem self_call_tail {isFn : Nat → Bool} {k : Nat} {f : String} {kn : List (String × Nat)}
-    {args : List Expr} {gs : GS} {r} (h : compile isFn ⟨true, k, f, kn⟩ (.call (.sym f) args) gs = .ok r) :
+    {args : List Expr} {gs : GS} {r} (h : compile isFn ⟨true, k, f, kn⟩ (.call (.sym f) args) gs = .ok r)
+    (harity : ArityOk ((kn.lookup f).bind fun t => gs.fns[t]?) args.length = true) :
     ∃ argcode, r.1.1 = argcode ++ [Instr.prepareCall f args.length] ++ List.replicate (k + 1) Instr.removeScope ++ [Instr.goto 0] := by
-  simp only [compile, Bool.true_and, beq_self_eq_true, ↓reduceIte, bind_ok, pure_ok, get_ok] at h
-  obtain ⟨_, _, _, code, gs2, _, rfl⟩ := h
-  exact ⟨code, rfl⟩
+  simp only [ArityOk] at harity
+  simp only [compile, Bool.true_and, beq_self_eq_true, ↓reduceIte, bind_ok, get_ok] at h
+  obtain ⟨g, gs1, heq, h⟩ := h
+  cases heq
+  generalize ((kn.lookup f).bind fun t => gs.fns[t]?) = fo at h harity
+  cases fo with
+  | none =>
+    simp only [↓reduceIte, bind_ok, pure_ok] at h
+    obtain ⟨code, gs2, _, rfl⟩ := h
+    exact ⟨code, rfl⟩
+  | some fo =>
+    simp only at harity h
+    simp only [harity, ↓reduceIte, bind_ok, pure_ok] at h
+    obtain ⟨code, gs2, _, rfl⟩ := h
+    exact ⟨code, rfl⟩
+
+/-- a self call in tail position with the wrong number of arguments is an ordinary call (it
+reports the arity error at run time like any other call). -/
+theorem self_call_wrong_arity {isFn : Nat → Bool} {k : Nat} {f : String} {kn : List (String × Nat)}
+    {args : List Expr} {gs : GS} {r} (h : compile isFn ⟨true, k, f, kn⟩ (.call (.sym f) args) gs = .ok r)
+    (harity : ArityOk ((kn.lookup f).bind fun t => gs.fns[t]?) args.length = false) :
+    r.1.1 = [Instr.callExpr (.sym f) args] := by
+  simp only [ArityOk] at harity
+  simp only [compile, Bool.true_and, beq_self_eq_true, ↓reduceIte, bind_ok, get_ok] at h
+  obtain ⟨g, gs1, heq, h⟩ := h
+  cases heq
+  generalize ((kn.lookup f).bind fun t => gs.fns[t]?) = fo at h harity
+  cases fo with
+  | none => simp at harity
+  | some fo =>
+    simp only at harity h
+    simp only [harity, Bool.false_eq_true, ↓reduceIte, pure_ok] at h
+    subst h; rfl
 
 theorem call_off {isFn : Nat → Bool} {k : Nat} {f h : String} {kn : List (String × Nat)}
     {args : List Expr} {gs : GS} {r} (hc : compile isFn ⟨false, k, f, kn⟩ (.call (.sym h) args) gs = .ok r) :
